@@ -1,5 +1,5 @@
 """C01 - conservation of material."""
-import simlib, simstream
+import simlib, simstream, mplib
 TRUSTED = ["exact regime (integer / half-integer data): Python floats compared for equality with model rationals",
 		   "single-product networks only at network level (multi-product BOM shares are not modelled yet)"]
 FIELDS = ['il', 'rm', 'pfg', 'is', 'ispl', 'idi', 'os', 'io', 'bo', 'odi', 'oq', 'oqfg', 'newFG']
@@ -14,6 +14,12 @@ def run(rep, drv):
 				'types, capacities, explicit disruption lists of all four types, deterministic demand lists; non-trivial = some '
 				'period has a positive backorder; distinct by canonical spec' % (8 if th else 5))
 	simstream.run_stream(rep, drv, 'sim-trace', 2500 if th else 250, FIELDS, oracle, THEOREM, th)
+	mplib.run_mp_stream(rep, drv, 'C01', THEOREM + ' + Props/MP (rm_conservation, rm_never_negative)', 400 if th else 50, th, seed_off=11)
+
+def replay_mp(rep, drv, doc):
+	mplib.mp_case(rep, drv, doc['case'], 'C01', THEOREM)
 
 def replay(rep, drv, doc):
+	if doc['stream'] == 'mp-kernels':
+		return replay_mp(rep, drv, doc)
 	r = simstream.one_case(rep, drv, doc['stream'], doc['case'], FIELDS, oracle, THEOREM)
